@@ -25,6 +25,7 @@ const stopGrace = 5 * time.Second // the documented bound of Stop's join
 var c18Queries = []struct{ Kind, SQL string }{
 	{"direct", "SELECT id, a, verif_boom(a) AS b FROM stream WHERE a >= 0"},
 	{"analytic", "SELECT id, lag(a) AS la, verif_boom(a) AS b FROM stream"},
+	{"analytic", "SELECT id, lag(a) AS la, acc_count(a) OVER (PARTITION BY p WHEN a > 2) AS c, verif_boom(a) AS b FROM stream"},
 	{"cep", "SELECT * FROM stream MATCH_RECOGNIZE ( ORDER BY ts MEASURES MATCH_NUMBER() AS mn, COUNT(A.a) AS n ONE ROW PER MATCH PATTERN (A+ B) DEFINE A AS a > 2, B AS a <= 2 )"},
 	{"cep_open", "SELECT * FROM stream MATCH_RECOGNIZE ( ORDER BY ts MEASURES MATCH_NUMBER() AS mn, COUNT(A.a) AS n ONE ROW PER MATCH PATTERN (A+) WITHIN '300ms' DEFINE A AS a > 1 )"},
 	{"cep_boom", "SELECT * FROM stream MATCH_RECOGNIZE ( ORDER BY ts MEASURES MATCH_NUMBER() AS mn, COUNT(A.a) AS n ONE ROW PER MATCH PATTERN (A+ B) DEFINE A AS verif_boom(a) > 2, B AS a <= 2 )"},
